@@ -681,7 +681,22 @@ fn start_rss_guard(id: &str, args: &[String]) {
 		cap *= 3;
 	}
 	let id = id.to_string();
+	// wall-clock watchdog of last resort for the main process (every workload has its own, much smaller,
+	// caps; this one only fires if code under test blocks the harness somewhere unforeseen): inconclusive
+	let thorough = std::env::var("VERIF_TIER").map(|t| t == "thorough").unwrap_or(false)
+		|| args.windows(2).any(|w| w[0] == "--tier" && w[1] == "thorough")
+		|| std::env::args().collect::<Vec<_>>().windows(2).any(|w| w[0] == "--tier" && w[1] == "thorough");
+	let wall_cap: u64 = std::env::var("VERIF_WALL_CAP_S")
+		.ok()
+		.and_then(|v| v.parse().ok())
+		.unwrap_or(if thorough { 3 * 3600 } else { 30 * 60 });
+	let started = Instant::now();
 	let _ = std::thread::Builder::new().name("rss-guard".into()).spawn(move || loop {
+		if !worker && started.elapsed().as_secs() > wall_cap {
+			eprintln!("[{}] inconclusive: the check ran for more than {} s (wall-clock watchdog of last resort) and stopped itself", id, wall_cap);
+			cleanup_scratches();
+			unsafe { libc::_exit(2) };
+		}
 		let r = rss_mb();
 		PEAK_RSS_MB.fetch_max(r, Ordering::Relaxed);
 		if r > cap {
